@@ -11,7 +11,10 @@ Names == {<<97>>, N15, N16, <<97, SP, 98>>, DB}
 Data(n) == [k \in 1..n |-> IF k % 5 = 0 THEN 10 ELSE 64 + k]
 Kind(nm, n, b) == [name |-> nm, mtime |-> <<49, 52, 51, 51, 49, 53, 51, 49, 50, 48>>, uid |-> <<48>>, gid |-> <<49, 48, 48, 48>>,
                    mode |-> <<49, 48, 48, 54, 52, 52>>, data |-> Data(n), blank |-> b]
-Kinds == {Kind(nm, n, b) : nm \in Names, n \in Sizes, b \in BOOLEAN}
+\* the same member with every numeric column filled to its width (timestamps after 2038, 6-digit ids)
+BigKind(nm, n) == [Kind(nm, n, FALSE) EXCEPT !.mtime = <<57, 57, 57, 57, 57, 57, 57, 57, 57, 57, 57, 57>>,
+                                             !.uid = <<57, 57, 57, 57, 57, 57>>, !.gid = <<50, 49, 52, 55, 52, 56>>]
+Kinds == {Kind(nm, n, b) : nm \in Names, n \in Sizes, b \in BOOLEAN} \cup {BigKind(nm, n) : nm \in {<<97>>, DB}, n \in {0, 1}}
 Models == UNION {[1..k -> Kinds] : k \in 0..MaxMembers}
 FitsGnu(ms) == \A k \in 1..Len(ms) : Len(ms[k].name) <= 15
 
